@@ -204,6 +204,17 @@ func genC05(t *core.Tape, tier string) *Scenario {
 			}
 			hdr[name] = []string{accept}
 		}
+		if p.HErr == nil && len(p.RespMsgs) > 0 && t.Bool(1, 4, "marshal.fails") {
+			// the handler's j-th response message cannot be marshalled (fault
+			// at the Codec seam); like any handler it returns Send's error
+			sc.Handlers[0].FailCodec = true
+			j := t.Choose(len(p.RespMsgs), "marshal.fails.at")
+			p.RespMsgs[j] = append(append([]byte{}, marshalFailMarker...), p.RespMsgs[j]...)
+			p.ReturnSendErr = true
+			p.marshalFailAt = j
+			p.marshalFails = true
+			sc.Notes["marshal_failure_planned"]++
+		}
 		p.Raw = &RawReq{Method: "POST", Header: hdr, Body: ref.EncodeRequestBody(ref.Proto(c.Proto), streaming, o, payloads)}
 		p.K.HTTP2 = p.K.HTTP2 || p.Kind == KBidi
 	}
@@ -307,6 +318,23 @@ func checkC05(w *World, st core.Status, r *RunResult) []Violation {
 				wantMsgs = p.RespMsgs[:min(sendsPlanned(p), len(p.RespMsgs))]
 			} else if p.HErr != nil {
 				wantMsgs = nil
+			}
+			if p.marshalFails {
+				// well-formed failure: the messages before the unmarshallable one,
+				// then a coded error - never a bare success or a half-written frame
+				r.Probes["marshal_failures_checked"]++
+				if len(wantMsgs) > p.marshalFailAt {
+					wantMsgs = wantMsgs[:p.marshalFailAt]
+				}
+				if resp.Err == nil {
+					add("marshal-failure-answered-with-success", fmt.Sprintf("response message %d could not be marshalled, the wire carries success", p.marshalFailAt))
+				}
+				if derr == nil {
+					if c, m := seqMismatch(wantMsgs, got); c != "" {
+						add("handler-response-messages/"+c, m)
+					}
+				}
+				continue
 			}
 			if p.c05mode == 2 && o.H.Entered == 0 {
 				add("conformant-request-rejected", fmt.Sprintf("the reference client's request %v body %q never reached user code; response error %+v", p.Raw.Header, clip(p.Raw.Body, 60), resp.Err))
